@@ -17,6 +17,24 @@ theorem append_targets_fresh : appends.all (fun s => s.prov == "fresh") = true :
 
 def mutating : List String := ["Set", "Clear", "Mutable", "NewField", "Append", "AppendMutable", "SetUnknown", "ClearOneof"]
 
+/-- NO ELEMENT OF A CALLER'S COLLECTION IS OVERWRITTEN: the only assignments `x[i] = v` in the evaluator packages
+    whose `x` is a parameter or the receiver are the three writes into per-Compile / per-call *maps* (the function
+    table being built, the variable map of the evaluation being set up) — none stores into a collection that was
+    handed in (an "in place" conversion or filter of the input would be such a store) -/
+theorem no_store_into_an_argument :
+    ((writes.filter (fun w => w.target.endsWith "[…]" && (w.prov.startsWith "param:" || w.prov == "receiver"))).map
+      (fun w => (w.fn, w.target))) =
+    [("Register", "t[…]"), ("AddExperimentalFuncs", "table[…]"), ("EnvVariable", "cfg.Context.ExternalConstants[…]")] := by
+  decide +kernel
+
+/-- … and every other indexed store goes into a local whose every definition creates a new backing store (`make`, a
+    literal): none into a slice or map obtained from somewhere else (the result of evaluating an argument, a
+    sub-slice of the input) -/
+theorem indexed_stores_into_fresh_locals :
+    (writes.filter (fun w => w.target.endsWith "[…]" && !(w.prov.startsWith "param:" || w.prov == "receiver"))).all
+      (fun w => w.prov == "local-fresh") = true := by
+  decide +kernel
+
 /-- the evaluator packages call no mutating protoreflect method (fields are read with Get,
     never Mutable) -/
 theorem eval_uses_readonly_proto_api :
